@@ -17,21 +17,21 @@ structure Inv (cap : Nat) (s : S α) : Prop where
 theorem inv_init (cap : Nat) : Inv cap (init : S α) := by
   constructor <;> simp [init]
 
-theorem doEnq_len {cap : Nat} (s : S α) (r : α) (hb : s.queue.length ≤ cap) : (doEnq cap s r).queue.length ≤ cap := by
+theorem doEnq_len {cap : Nat} (s : S α) (r : α) (t : Nat) (hb : s.queue.length ≤ cap) : (doEnq cap s r t).queue.length ≤ cap := by
   unfold doEnq; split
   · simp; omega
   · exact hb
 
-theorem doEnq_fifo {cap : Nat} (s : S α) (r : α) (hf : s.enq = s.gone ++ s.queue) : (doEnq cap s r).enq = (doEnq cap s r).gone ++ (doEnq cap s r).queue := by
+theorem doEnq_fifo {cap : Nat} (s : S α) (r : α) (t : Nat) (hf : s.enq = s.gone ++ s.queue) : (doEnq cap s r t).enq = (doEnq cap s r t).gone ++ (doEnq cap s r t).queue := by
   unfold doEnq; split
   · simp [hf]
   · exact hf
 
-@[simp] theorem doEnq_cmu {cap : Nat} (s : S α) (r : α) : (doEnq cap s r).cmu = s.cmu := by unfold doEnq; split <;> rfl
-@[simp] theorem doEnq_pc {cap : Nat} (s : S α) (r : α) : (doEnq cap s r).pc = s.pc := by unfold doEnq; split <;> rfl
-@[simp] theorem doEnq_rpc {cap : Nat} (s : S α) (r : α) : (doEnq cap s r).rpc = s.rpc := by unfold doEnq; split <;> rfl
-@[simp] theorem doEnq_spc {cap : Nat} (s : S α) (r : α) : (doEnq cap s r).spc = s.spc := by unfold doEnq; split <;> rfl
-@[simp] theorem doEnq_closed {cap : Nat} (s : S α) (r : α) : (doEnq cap s r).closed = s.closed := by unfold doEnq; split <;> rfl
+@[simp] theorem doEnq_cmu {cap : Nat} (s : S α) (r : α) (t : Nat) : (doEnq cap s r t).cmu = s.cmu := by unfold doEnq; split <;> rfl
+@[simp] theorem doEnq_pc {cap : Nat} (s : S α) (r : α) (t : Nat) : (doEnq cap s r t).pc = s.pc := by unfold doEnq; split <;> rfl
+@[simp] theorem doEnq_rpc {cap : Nat} (s : S α) (r : α) (t : Nat) : (doEnq cap s r t).rpc = s.rpc := by unfold doEnq; split <;> rfl
+@[simp] theorem doEnq_spc {cap : Nat} (s : S α) (r : α) (t : Nat) : (doEnq cap s r t).spc = s.spc := by unfold doEnq; split <;> rfl
+@[simp] theorem doEnq_closed {cap : Nat} (s : S α) (r : α) (t : Nat) : (doEnq cap s r t).closed = s.closed := by unfold doEnq; split <;> rfl
 
 theorem ncl {cap : Nat} {s : S α} (hI : Inv cap s) (h : s.rpc ≠ .stopped) : s.closed = false := by
   cases hc : s.closed with
@@ -87,8 +87,8 @@ theorem inv_step {cap : Nat} {s s' : S α} {l : Lbl α} (hI : Inv cap s) (h : st
       · simp [setPc, hj]
         intro r' hr'; have := (hI.lockP j).2 ⟨r', hr'⟩; rw [hown] at this; injection this with this; injection this with this; exact hj this.symm
     · simp [setPc]; intro r' k hk; have := hI.lockR.2 ⟨r', k, hk⟩; rw [hown] at this; cases this
-    · simp [setPc]; exact doEnq_len s r hI.bound
-    · simp [setPc]; exact doEnq_fifo s r hI.fifo
+    · simp [setPc]; exact doEnq_len s r _ hI.bound
+    · simp [setPc]; exact doEnq_fifo s r _ hI.fifo
     · simp [setPc]; exact hI.exitC
     · simp [setPc]; exact hI.stopC
   | sTakeReq =>
@@ -151,8 +151,8 @@ theorem inv_step {cap : Nat} {s s' : S α} {l : Lbl α} (hI : Inv cap s) (h : st
     have hown : s.cmu = some .recv := hI.lockR.2 ⟨r, k, hr⟩
     refine ⟨?_, by simp, ?_, ?_, ?_, ?_⟩
     · intro j; simp; intro r' hr'; have := (hI.lockP j).2 ⟨r', hr'⟩; rw [hown] at this; cases this
-    · simp; exact doEnq_len s r hI.bound
-    · simp; exact doEnq_fifo s r hI.fifo
+    · simp; exact doEnq_len s r _ hI.bound
+    · simp; exact doEnq_fifo s r _ hI.fifo
     · simp; exact hI.exitC
     · simp; exact ncl hI (by simp [hr])
   | rFail =>
@@ -454,15 +454,15 @@ theorem fill_one {cap n : Nat} (r : α) {s : S α} (hF : Filling n s) (hn : n < 
   have hp := hF.idle n (Nat.le_refl n)
   let s1 : S α := setPc s n (.want r)
   have h1 : step cap s (.pStart n r) = some s1 := by simp [step, hp, s1]
-  let s2 : S α := { (setPc s1 n (.locked r)) with cmu := some (.prod n) }
+  let s2 : S α := { (setPc s1 n (.locked r)) with cmu := some (.prod n), lockEp := fun j => if j = n then s1.epoch else s1.lockEp j }
   have h2 : step cap s1 (.pLock n) = some s2 := by simp [step, s1, s2, setPc, hF.cmu]
-  let s3 : S α := { (setPc (doEnq cap s2 r) n .done) with cmu := none }
+  let s3 : S α := { (setPc (doEnq cap s2 r (s2.lockEp n)) n .done) with cmu := none }
   have hlen2 : s2.queue.length = n := by simp [s2, s1, setPc, hF.len]
   have h3 : step cap s2 (.pEnq n) = some s3 := by
     have : s2.pc n = .locked r := by simp [s2, setPc]
     simp [step, this, canEnq, hlen2, hn, s3]
   refine ⟨s3, by simp [one, run, h1, h2, h3], ?_⟩
-  have hq : (doEnq cap s2 r).queue = s2.queue ++ [r] := by simp [doEnq, hlen2, hn]
+  have hq : (doEnq cap s2 r (s2.lockEp n)).queue = s2.queue ++ [r] := by simp [doEnq, hlen2, hn]
   constructor
   · simp [s3]
   · simp [s3, setPc, hq, hlen2]
@@ -470,7 +470,7 @@ theorem fill_one {cap n : Nat} (r : α) {s : S α} (hF : Filling n s) (hn : n < 
     simp [s3, s2, s1, setPc, this]; exact hF.idle i (by omega)
   · simp [s3, s2, s1, setPc, hF.open_]
   · simp [s3, s2, s1, setPc, hF.sel]
-  · have : (doEnq cap s2 r).streamCh = s2.streamCh := by unfold doEnq; split <;> rfl
+  · have : (doEnq cap s2 r (s2.lockEp n)).streamCh = s2.streamCh := by unfold doEnq; split <;> rfl
     simp [s3, setPc, this]; simp [s2, s1, setPc, hF.ch]
 
 def fill (r : α) : Nat → Nat → List (Lbl α)
@@ -495,7 +495,8 @@ def s12Schedule (cap : Nat) (r : α) : List (Lbl α) :=
   [.rFail, .rDrain, .rPublish] ++ (fill r 0 cap ++ [.pStart cap r, .pLock cap, .sTakeStream])
 
 theorem s12_reachable (cap : Nat) (r : α) : ∃ s : S α, run cap init (s12Schedule cap r) = some s ∧ S12 cap s := by
-  let s0 : S α := { (init : S α) with rpc := .recv 2, nextSid := 3, dead := fun j => if j = 1 then true else false, streamCh := some 2 }
+  let s0 : S α := { (init : S α) with rpc := .recv 2, nextSid := 3, dead := fun j => if j = 1 then true else false, streamCh := some 2,
+                                       epoch := 1, streamEp := fun j => if j = 2 then 1 else 0 }
   have h0 : run cap (init : S α) [.rFail, .rDrain, .rPublish] = some s0 := by
     simp [run, step, init, s0]
   have hF0 : Filling 0 s0 := by constructor <;> simp [s0, init]
@@ -504,7 +505,7 @@ theorem s12_reachable (cap : Nat) (r : α) : ∃ s : S α, run cap init (s12Sche
   have hp := hF1.idle cap (Nat.le_refl cap)
   let s2 : S α := setPc s1 cap (.want r)
   have e2 : step cap s1 (.pStart cap r) = some s2 := by simp [step, hp, s2]
-  let s3 : S α := { (setPc s2 cap (.locked r)) with cmu := some (.prod cap) }
+  let s3 : S α := { (setPc s2 cap (.locked r)) with cmu := some (.prod cap), lockEp := fun j => if j = cap then s2.epoch else s2.lockEp j }
   have e3 : step cap s2 (.pLock cap) = some s3 := by simp [step, s2, s3, setPc, hF1.cmu]
   let s4 : S α := { s3 with streamCh := none, spc := .adoptWait 2 }
   have e4 : step cap s3 .sTakeStream = some s4 := by simp [step, s3, s2, setPc, hF1.sel, hF1.ch, s4]
@@ -864,17 +865,394 @@ theorem live_step {cap : Nat} {s s' : S α} {l : Lbl α} (hL : NoFailure s → L
   | resume => simp only [step] at h; simp at h; subst h; exact ⟨h1, h2, h3, h4, h5, h6⟩
 
 
+/-- the stream the receiver is concerned with -/
+def rstream (s : S α) : Option Nat :=
+  match s.rpc with
+  | .recv k | .ackWant _ k | .ackLocked _ k | .reconnWait k | .publish k => some k
+  | .stopped => none
+
+/-- `k` is a stream whose reconnect has already reset the nonces (it is not the one the receiver is still waiting to drain for) -/
+def Drained (s : S α) (k : Nat) : Prop := 1 ≤ k ∧ k < s.nextSid ∧ s.rpc ≠ .reconnWait k
+
+structure Ep (s : S α) : Prop where
+  len    : s.queueEp.length = s.queue.length
+  tags   : ∀ e ∈ s.queueEp, e = s.epoch
+  lockP  : ∀ i r, s.pc i = .locked r → s.lockEp i = s.epoch
+  lockR  : ∀ r k, s.rpc = .ackLocked r k → s.rLockEp = s.epoch
+  newest : ∀ k, rstream s = some k → 1 ≤ k ∧ k + 1 = s.nextSid
+  alive  : ∀ k, 1 ≤ k → k < s.nextSid → s.dead k = false → k + 1 = s.nextSid
+  aliveEp : ∀ k, Drained s k → s.dead k = false → s.streamEp k = s.epoch
+  snd    : ∀ k, s.senderStream = some k → Drained s k
+  ch     : ∀ k, s.streamCh = some k → Drained s k
+  adopt  : ∀ k, s.spc = .adoptWait k → Drained s k
+  sending : ∀ r k, s.spc = .sending r k → Drained s k
+  infl   : ∀ r k, s.spc = .sending r k → s.dead k = false → s.inflightEp = s.streamEp k
+  sent   : ∀ p ∈ s.sentEp, p.2 = s.streamEp p.1 ∧ Drained s p.1
+
+theorem ep_init : Ep (init : S α) := by
+  constructor <;> simp [init, rstream, Drained]
+  · intro k h1 hk; omega
+
+
+
+
+@[simp] theorem doEnq_nextSid {cap : Nat} (s : S α) (r : α) (t : Nat) : (doEnq cap s r t).nextSid = s.nextSid := by unfold doEnq; split <;> rfl
+@[simp] theorem doEnq_dead {cap : Nat} (s : S α) (r : α) (t : Nat) : (doEnq cap s r t).dead = s.dead := by unfold doEnq; split <;> rfl
+@[simp] theorem doEnq_streamEp {cap : Nat} (s : S α) (r : α) (t : Nat) : (doEnq cap s r t).streamEp = s.streamEp := by unfold doEnq; split <;> rfl
+@[simp] theorem doEnq_senderStream {cap : Nat} (s : S α) (r : α) (t : Nat) : (doEnq cap s r t).senderStream = s.senderStream := by unfold doEnq; split <;> rfl
+@[simp] theorem doEnq_streamCh {cap : Nat} (s : S α) (r : α) (t : Nat) : (doEnq cap s r t).streamCh = s.streamCh := by unfold doEnq; split <;> rfl
+@[simp] theorem doEnq_inflightEp {cap : Nat} (s : S α) (r : α) (t : Nat) : (doEnq cap s r t).inflightEp = s.inflightEp := by unfold doEnq; split <;> rfl
+@[simp] theorem doEnq_sentEp {cap : Nat} (s : S α) (r : α) (t : Nat) : (doEnq cap s r t).sentEp = s.sentEp := by unfold doEnq; split <;> rfl
+@[simp] theorem doEnq_epoch {cap : Nat} (s : S α) (r : α) (t : Nat) : (doEnq cap s r t).epoch = s.epoch := by unfold doEnq; split <;> rfl
+@[simp] theorem doEnq_lockEp {cap : Nat} (s : S α) (r : α) (t : Nat) : (doEnq cap s r t).lockEp = s.lockEp := by unfold doEnq; split <;> rfl
+@[simp] theorem doEnq_rLockEp {cap : Nat} (s : S α) (r : α) (t : Nat) : (doEnq cap s r t).rLockEp = s.rLockEp := by unfold doEnq; split <;> rfl
+
+theorem doEnq_lenEp {cap : Nat} (s : S α) (r : α) (t : Nat) (h : s.queueEp.length = s.queue.length) :
+    (doEnq cap s r t).queueEp.length = (doEnq cap s r t).queue.length := by
+  unfold doEnq; split <;> simp [h]
+
+theorem doEnq_tags {cap : Nat} (s : S α) (r : α) (t : Nat) (h : ∀ e ∈ s.queueEp, e = s.epoch) (ht : t = s.epoch) :
+    ∀ e ∈ (doEnq cap s r t).queueEp, e = s.epoch := by
+  unfold doEnq; split
+  · intro e he; simp at he; rcases he with he | he
+    · exact h e he
+    · rw [he, ht]
+  · exact h
+
+/-- after an enqueue nothing but the channel has changed: every clause that does not mention the channel carries over -/
+theorem ep_after_enq {cap : Nat} {s : S α} (hE : Ep s) (r : α) (t : Nat) (ht : t = s.epoch) {s' : S α}
+    (hq : s'.queueEp = (doEnq cap s r t).queueEp) (hqq : s'.queue = (doEnq cap s r t).queue) (he : s'.epoch = s.epoch)
+    (hlp : ∀ i r', s'.pc i = .locked r' → s.pc i = .locked r' ∧ s'.lockEp i = s.lockEp i)
+    (hlr : ∀ r' k, s'.rpc = .ackLocked r' k → s.rpc = .ackLocked r' k ∧ s'.rLockEp = s.rLockEp)
+    (hrs : rstream s' = rstream s) (hrw : ∀ k, s'.rpc = .reconnWait k ↔ s.rpc = .reconnWait k)
+    (hn : s'.nextSid = s.nextSid) (hd : s'.dead = s.dead) (hse : s'.streamEp = s.streamEp) (hss : s'.senderStream = s.senderStream)
+    (hc : s'.streamCh = s.streamCh) (hsp : s'.spc = s.spc) (hin : s'.inflightEp = s.inflightEp) (hst : s'.sentEp = s.sentEp) : Ep s' := by
+  have dr : ∀ k, Drained s' k ↔ Drained s k := by
+    intro k; unfold Drained; rw [hn]; simp only [ne_eq, hrw k]
+  constructor
+  · rw [hq, hqq]; exact doEnq_lenEp s r t hE.len
+  · rw [hq, he]; exact doEnq_tags s r t hE.tags ht
+  · intro i r' h; obtain ⟨h1, h2⟩ := hlp i r' h; rw [h2, he]; exact hE.lockP i r' h1
+  · intro r' k h; obtain ⟨h1, h2⟩ := hlr r' k h; rw [h2, he]; exact hE.lockR r' k h1
+  · rw [hrs, hn]; exact hE.newest
+  · rw [hn, hd]; exact hE.alive
+  · intro k h1 h2; rw [hse, he]; exact hE.aliveEp k ((dr k).1 h1) (by rw [hd] at h2; exact h2)
+  · intro k h; exact (dr k).2 (hE.snd k (by rw [hss] at h; exact h))
+  · intro k h; exact (dr k).2 (hE.ch k (by rw [hc] at h; exact h))
+  · intro k h; exact (dr k).2 (hE.adopt k (by rw [hsp] at h; exact h))
+  · intro r' k h; exact (dr k).2 (hE.sending r' k (by rw [hsp] at h; exact h))
+  · intro r' k h h2; rw [hin, hse]; exact hE.infl r' k (by rw [hsp] at h; exact h) (by rw [hd] at h2; exact h2)
+  · intro p hp; rw [hst] at hp; obtain ⟨h1, h2⟩ := hE.sent p hp; exact ⟨by rw [hse]; exact h1, (dr p.1).2 h2⟩
+
+/-- a step that changes none of the fields the epoch invariant reads, except program counters that move between
+states the invariant does not distinguish -/
+theorem ep_same {s s' : S α} (hE : Ep s)
+    (hq : s'.queueEp = s.queueEp) (hqq : s'.queue.length = s.queue.length) (he : s'.epoch = s.epoch)
+    (hlp : ∀ i r', s'.pc i = .locked r' → s'.lockEp i = s.epoch)
+    (hlr : ∀ r' k, s'.rpc = .ackLocked r' k → s'.rLockEp = s.epoch)
+    (hrs : rstream s' = rstream s ∨ rstream s' = none) (hrw : ∀ k, s'.rpc = .reconnWait k ↔ s.rpc = .reconnWait k)
+    (hn : s'.nextSid = s.nextSid) (hd : s'.dead = s.dead) (hse : s'.streamEp = s.streamEp)
+    (hss : ∀ k, s'.senderStream = some k → Drained s k)
+    (hc : ∀ k, s'.streamCh = some k → Drained s k)
+    (ha : ∀ k, s'.spc = .adoptWait k → Drained s k)
+    (hsg : ∀ r' k, s'.spc = .sending r' k → Drained s k ∧ (s.dead k = false → s'.inflightEp = s.streamEp k))
+    (hst : ∀ p ∈ s'.sentEp, p.2 = s.streamEp p.1 ∧ Drained s p.1) : Ep s' := by
+  have dr : ∀ k, Drained s' k ↔ Drained s k := by
+    intro k; unfold Drained; rw [hn]; simp only [ne_eq, hrw k]
+  constructor
+  · rw [hq, hqq]; exact hE.len
+  · rw [hq, he]; exact hE.tags
+  · intro i r' h; rw [he]; exact hlp i r' h
+  · intro r' k h; rw [he]; exact hlr r' k h
+  · intro k h; rw [hn]; rcases hrs with e | e
+    · rw [e] at h; exact hE.newest k h
+    · rw [e] at h; cases h
+  · rw [hn, hd]; exact hE.alive
+  · intro k h1 h2; rw [hse, he]; exact hE.aliveEp k ((dr k).1 h1) (by rw [hd] at h2; exact h2)
+  · intro k h; exact (dr k).2 (hss k h)
+  · intro k h; exact (dr k).2 (hc k h)
+  · intro k h; exact (dr k).2 (ha k h)
+  · intro r' k h; exact (dr k).2 (hsg r' k h).1
+  · intro r' k h h2; rw [hse]; exact (hsg r' k h).2 (by rw [hd] at h2; exact h2)
+  · intro p hp; obtain ⟨h1, h2⟩ := hst p hp; exact ⟨by rw [hse]; exact h1, (dr p.1).2 h2⟩
+
+
+theorem drained_mono {s s' : S α} {k : Nat} (hD : Drained s k) (hn : s.nextSid ≤ s'.nextSid) (hr : s'.rpc ≠ .reconnWait k) : Drained s' k :=
+  ⟨hD.1, by have := hD.2.1; omega, hr⟩
+
+theorem ep_step {cap : Nat} {s s' : S α} {l : Lbl α} (hI : Inv cap s) (hE : Ep s) (h : step cap s l = some s') : Ep s' := by
+  cases l with
+  | pStart i r =>
+    simp only [step] at h
+    split at h <;> simp at h
+    next hp =>
+    subst h
+    refine ep_same hE rfl rfl rfl ?_ (fun r' k h => hE.lockR r' k h) (Or.inl rfl) (fun k => Iff.rfl) rfl rfl rfl
+      hE.snd hE.ch hE.adopt (fun r' k h => ⟨hE.sending r' k h, hE.infl r' k h⟩) hE.sent
+    intro j r' hj
+    by_cases hji : j = i
+    · subst hji; simp [setPc] at hj
+    · simp [setPc, hji] at hj; exact hE.lockP j r' hj
+  | pLock i =>
+    simp only [step] at h
+    split at h <;> simp at h
+    next r hp hc =>
+    subst h
+    refine ep_same hE rfl rfl rfl ?_ (fun r' k h => hE.lockR r' k h) (Or.inl rfl) (fun k => Iff.rfl) rfl rfl rfl
+      hE.snd hE.ch hE.adopt (fun r' k h => ⟨hE.sending r' k h, hE.infl r' k h⟩) hE.sent
+    intro j r' hj
+    by_cases hji : j = i
+    · subst hji; simp
+    · simp [setPc, hji] at hj ⊢; exact hE.lockP j r' hj
+  | pEnq i =>
+    simp only [step] at h
+    split at h <;> try (simp at h; done)
+    next r hp =>
+    split at h <;> simp at h
+    subst h
+    refine ep_after_enq (cap := cap) hE r (s.lockEp i) (hE.lockP i r hp) (by simp [setPc]) (by simp [setPc]) (by simp [setPc]) ?_ ?_ (by simp [setPc, rstream]) (by intro k; simp [setPc])
+      (by simp [setPc]) (by simp [setPc]) (by simp [setPc]) (by simp [setPc]) (by simp [setPc]) (by simp [setPc]) (by simp [setPc]) (by simp [setPc])
+    · intro j r' hj
+      by_cases hji : j = i
+      · subst hji; simp [setPc] at hj
+      · simp [setPc, hji] at hj ⊢; exact hj
+    · intro r' k hk; simp [setPc] at hk ⊢; exact hk
+  | sTakeReq =>
+    simp only [step] at h
+    split at h <;> try (simp at h; done)
+    next r rest hs hq =>
+    have hne : s.queueEp ≠ [] := by
+      intro he; have := hE.len; rw [he, hq] at this; simp at this
+    have hlen : s.queueEp.tail.length = rest.length := by
+      have := hE.len; rw [hq] at this; simp at this; simp [this]
+    have htags : ∀ e ∈ s.queueEp.tail, e = s.epoch := fun e he => hE.tags e (List.mem_of_mem_tail he)
+    split at h <;> simp at h <;> subst h
+    · next k hk =>
+      have hD := hE.snd k hk
+      constructor
+      · exact hlen
+      · exact htags
+      · exact hE.lockP
+      · exact hE.lockR
+      · exact hE.newest
+      · exact hE.alive
+      · exact hE.aliveEp
+      · exact hE.snd
+      · exact hE.ch
+      · intro k' h'; simp at h'
+      · intro r' k' h'; simp at h'; obtain ⟨_, hkk⟩ := h'; subst hkk; exact hD
+      · intro r' k' h' hd
+        simp at h'; simp
+        obtain ⟨_, hkk⟩ := h'
+        subst hkk
+        have : s.queueEp.head?.getD 0 = s.epoch := by
+          cases hqe : s.queueEp with
+          | nil => exact absurd hqe hne
+          | cons a l => simp; exact hE.tags a (by simp [hqe])
+        rw [this]; exact (hE.aliveEp k hD hd).symm
+      · exact hE.sent
+    · next hk =>
+      constructor
+      · exact hlen
+      · exact htags
+      · exact hE.lockP
+      · exact hE.lockR
+      · exact hE.newest
+      · exact hE.alive
+      · exact hE.aliveEp
+      · exact hE.snd
+      · exact hE.ch
+      · exact hE.adopt
+      · exact hE.sending
+      · exact hE.infl
+      · exact hE.sent
+  | sSendDone =>
+    simp only [step] at h
+    split at h <;> try (simp at h; done)
+    next r k hs =>
+    split at h <;> try (simp at h; done)
+    split at h <;> simp at h <;> subst h
+    · next hd =>
+      refine ep_same hE rfl rfl rfl hE.lockP hE.lockR (Or.inl rfl) (fun k => Iff.rfl) rfl rfl rfl
+        (by intro k' h'; simp at h') hE.ch (by intro k' h'; simp at h') (by intro r' k' h'; simp at h') hE.sent
+    · next hd =>
+      have hdf : s.dead k = false := by cases hx : s.dead k <;> simp_all
+      refine ep_same hE rfl rfl rfl hE.lockP hE.lockR (Or.inl rfl) (fun k => Iff.rfl) rfl rfl rfl
+        hE.snd hE.ch (by intro k' h'; simp at h') (by intro r' k' h'; simp at h') ?_
+      intro p hp
+      simp at hp
+      rcases hp with hp | hp
+      · exact hE.sent p hp
+      · subst hp; exact ⟨hE.infl r k hs hdf, hE.sending r k hs⟩
+  | sTakeStream =>
+    simp only [step] at h
+    split at h <;> simp at h
+    next k hs hch =>
+    subst h
+    refine ep_same hE rfl rfl rfl hE.lockP hE.lockR (Or.inl rfl) (fun k => Iff.rfl) rfl rfl rfl
+      hE.snd (by intro k' h'; simp at h') (by intro k' h'; simp at h'; rw [← h']; exact hE.ch k hch) (by intro r' k' h'; simp at h') hE.sent
+  | sAdopt batch =>
+    simp only [step] at h
+    split at h <;> try (simp at h; done)
+    next k hs hc =>
+    split at h <;> simp at h <;> subst h
+    · refine ep_same hE rfl rfl rfl hE.lockP hE.lockR (Or.inl rfl) (fun k => Iff.rfl) rfl rfl rfl
+        (by intro k' h'; simp at h') hE.ch (by intro k' h'; simp at h') (by intro r' k' h'; simp at h') hE.sent
+    · refine ep_same hE rfl rfl rfl hE.lockP hE.lockR (Or.inl rfl) (fun k => Iff.rfl) rfl rfl rfl
+        (by intro k' h'; simp at h'; rw [← h']; exact hE.adopt k hs) hE.ch (by intro k' h'; simp at h') (by intro r' k' h'; simp at h') hE.sent
+  | sExit =>
+    simp only [step] at h
+    split at h <;> try (simp at h; done)
+    split at h <;> simp at h
+    subst h
+    refine ep_same hE rfl rfl rfl hE.lockP hE.lockR (Or.inl rfl) (fun k => Iff.rfl) rfl rfl rfl
+      hE.snd hE.ch (by intro k' h'; simp at h') (by intro r' k' h'; simp at h') hE.sent
+  | rResp r =>
+    simp only [step] at h
+    split at h <;> simp at h
+    next k hr =>
+    subst h
+    refine ep_same hE rfl rfl rfl hE.lockP (by intro r' k' h'; simp at h') (Or.inl (by simp [rstream, hr])) (by intro k'; simp [hr]) rfl rfl rfl
+      hE.snd hE.ch hE.adopt (fun r' k h => ⟨hE.sending r' k h, hE.infl r' k h⟩) hE.sent
+  | rAckLock =>
+    simp only [step] at h
+    split at h <;> simp at h
+    next r k hr hc =>
+    subst h
+    refine ep_same hE rfl rfl rfl hE.lockP (by intro r' k' h'; rfl) (Or.inl (by simp [rstream, hr])) (by intro k'; simp [hr]) rfl rfl rfl
+      hE.snd hE.ch hE.adopt (fun r' k h => ⟨hE.sending r' k h, hE.infl r' k h⟩) hE.sent
+  | rAckEnq =>
+    simp only [step] at h
+    split at h <;> try (simp at h; done)
+    next r k hr =>
+    split at h <;> simp at h
+    subst h
+    refine ep_after_enq (cap := cap) hE r s.rLockEp (hE.lockR r k hr) (by simp) (by simp) (by simp) ?_ ?_ (by simp [rstream, hr]) (by intro k'; simp [hr])
+      (by simp) (by simp) (by simp) (by simp) (by simp) (by simp) (by simp) (by simp)
+    · intro j r' hj; simp at hj ⊢; exact hj
+    · intro r' k' hk; simp at hk
+  | rFail =>
+    simp only [step] at h
+    split at h <;> simp at h
+    next k hr =>
+    subst h
+    have hnew := hE.newest k (by simp [rstream, hr])
+    have deadOld : ∀ k', 1 ≤ k' → k' < s.nextSid → (if k' = k then true else s.dead k') = false → False := by
+      intro k' h1 h2 h3
+      by_cases hk : k' = k
+      · simp [hk] at h3
+      · simp [hk] at h3
+        have := hE.alive k' h1 h2 h3
+        omega
+    constructor
+    · exact hE.len
+    · exact hE.tags
+    · exact hE.lockP
+    · intro r' k' h'; simp at h'
+    · intro k' h'; simp [rstream] at h'; subst h'; simp; omega
+    · intro k' h1 h2 h3
+      simp at h2 h3 ⊢
+      by_cases hk : k' < s.nextSid
+      · exact absurd (deadOld k' h1 hk (by simpa using h3)) id
+      · omega
+    · intro k' ⟨h1, h2, h3⟩ h4
+      simp at h2 h3 h4
+      have hk : k' < s.nextSid := by omega
+      exact absurd (deadOld k' h1 hk (by simpa using h4)) id
+    · intro k' h'; have hD := hE.snd k' h'; exact drained_mono hD (by simp) (by simp; have := hD.2.1; omega)
+    · intro k' h'; have hD := hE.ch k' h'; exact drained_mono hD (by simp) (by simp; have := hD.2.1; omega)
+    · intro k' h'; have hD := hE.adopt k' h'; exact drained_mono hD (by simp) (by simp; have := hD.2.1; omega)
+    · intro r' k' h'; have hD := hE.sending r' k' h'; exact drained_mono hD (by simp) (by simp; have := hD.2.1; omega)
+    · intro r' k' h' hd
+      have hD := hE.sending r' k' h'
+      simp at hd
+      exact absurd (deadOld k' hD.1 hD.2.1 (by simpa using hd)) id
+    · intro p hp; obtain ⟨h1, h2⟩ := hE.sent p hp; exact ⟨h1, drained_mono h2 (by simp) (by simp; have := h2.2.1; omega)⟩
+  | rDrain =>
+    simp only [step] at h
+    split at h <;> simp at h
+    next k hr hc =>
+    subst h
+    have hnew := hE.newest k (by simp [rstream, hr])
+    have ne : ∀ k', Drained s k' → k' ≠ k := by
+      intro k' ⟨_, _, h3⟩ e; subst e; exact h3 hr
+    have onlyNew : ∀ k', Drained s k' → s.dead k' = false → False := by
+      intro k' hD hd
+      have := hE.alive k' hD.1 hD.2.1 hd
+      exact ne k' hD (by omega)
+    constructor
+    · simp
+    · intro e he; simp at he
+    · intro i r' hp
+      have := (hI.lockP i).2 ⟨r', hp⟩
+      rw [hc] at this; cases this
+    · intro r' k' h'; simp at h'
+    · intro k' h'; simp [rstream] at h'; subst h'; exact hnew
+    · exact hE.alive
+    · intro k' ⟨h1, h2, _⟩ hd
+      have := hE.alive k' h1 h2 hd
+      have : k' = k := by omega
+      simp [this]
+    · intro k' h'; exact drained_mono (hE.snd k' h') (by simp) (by simp)
+    · intro k' h'; exact drained_mono (hE.ch k' h') (by simp) (by simp)
+    · intro k' h'; exact drained_mono (hE.adopt k' h') (by simp) (by simp)
+    · intro r' k' h'; exact drained_mono (hE.sending r' k' h') (by simp) (by simp)
+    · intro r' k' h' hd
+      exact absurd (onlyNew k' (hE.sending r' k' h') hd) id
+    · intro p hp
+      obtain ⟨h1, h2⟩ := hE.sent p hp
+      refine ⟨?_, drained_mono h2 (by simp) (by simp)⟩
+      simp [ne p.1 h2]; exact h1
+  | rPublish =>
+    simp only [step] at h
+    split at h <;> simp at h
+    next k hr hch =>
+    subst h
+    have hnew := hE.newest k (by simp [rstream, hr])
+    refine ep_same hE rfl rfl rfl hE.lockP (by intro r' k' h'; simp at h') (Or.inl (by simp [rstream, hr])) (by intro k'; simp [hr]) rfl rfl rfl
+      hE.snd ?_ hE.adopt (fun r' k h => ⟨hE.sending r' k h, hE.infl r' k h⟩) hE.sent
+    intro k' h'; simp at h'; subst h'
+    exact ⟨hnew.1, by omega, by simp [hr]⟩
+  | rAuthFail =>
+    simp only [step] at h
+    split at h <;> simp at h
+    next k hr =>
+    subst h
+    refine ep_same hE rfl rfl rfl hE.lockP (by intro r' k' h'; simp at h') (Or.inr (by simp [rstream])) (by intro k'; simp [hr]) rfl rfl rfl
+      hE.snd hE.ch hE.adopt (fun r' k h => ⟨hE.sending r' k h, hE.infl r' k h⟩) hE.sent
+  | stall =>
+    simp only [step] at h; simp at h; subst h
+    exact ep_same hE rfl rfl rfl hE.lockP hE.lockR (Or.inl rfl) (fun k => Iff.rfl) rfl rfl rfl
+      hE.snd hE.ch hE.adopt (fun r' k h => ⟨hE.sending r' k h, hE.infl r' k h⟩) hE.sent
+  | resume =>
+    simp only [step] at h; simp at h; subst h
+    exact ep_same hE rfl rfl rfl hE.lockP hE.lockR (Or.inl rfl) (fun k => Iff.rfl) rfl rfl rfl
+      hE.snd hE.ch hE.adopt (fun r' k h => ⟨hE.sending r' k h, hE.infl r' k h⟩) hE.sent
+
+
+/-- the tags on the wire are parallel to the requests on the wire -/
+def SentPar (s : S α) : Prop := s.sentEp.map (·.1) = s.sent.map (·.1)
+
+theorem sentpar_init : SentPar (init : S α) := by simp [SentPar, init]
+
+theorem sentpar_step {cap : Nat} {s s' : S α} {l : Lbl α} (hC : SentPar s) (h : step cap s l = some s') : SentPar s' := by
+  unfold SentPar at *
+  cases l <;> simp only [step] at h <;> (repeat' split at h) <;> (try (simp at h; done)) <;>
+    (try (simp at h)) <;> (try subst h) <;> simp_all [setPc, doEnq] <;> (try split) <;> (try simp_all)
+
 /-- everything known about a reachable state -/
 structure Reach (cap : Nat) (s : S α) : Prop where
   inv : Inv cap s
   hist : Hist s
   cnt : Cnt s
   live : NoFailure s → Live s
+  ep : Ep s
+  par : SentPar s
 
-theorem reach_init (cap : Nat) : Reach cap (init : S α) := ⟨inv_init cap, hist_init, cnt_init, fun _ => live_init⟩
+theorem reach_init (cap : Nat) : Reach cap (init : S α) := ⟨inv_init cap, hist_init, cnt_init, fun _ => live_init, ep_init, sentpar_init⟩
 
 theorem reach_step {cap : Nat} {s s' : S α} {l : Lbl α} (hR : Reach cap s) (h : step cap s l = some s') : Reach cap s' :=
-  ⟨inv_step hR.inv h, hist_step hR.hist h, cnt_step hR.cnt h, live_step hR.live h⟩
+  ⟨inv_step hR.inv h, hist_step hR.hist h, cnt_step hR.cnt h, live_step hR.live h, ep_step hR.inv hR.ep h, sentpar_step hR.par h⟩
 
 theorem reach_run {cap : Nat} {s s' : S α} {ls : List (Lbl α)} (hR : Reach cap s) (h : run cap s ls = some s') : Reach cap s' := by
   induction ls generalizing s with
@@ -923,5 +1301,14 @@ theorem live_wire_eq_enq {cap : Nat} {s : S α} (hR : Reach cap s) (hn : NoFailu
   simp at hc
   rw [hf]
   exact ho.eq_of_length (by simp [hc])
+
+/-- **Nonces stay on their stream (goroutine level)**: every request on the wire of stream `k` was built by a producer that
+took the client lock in the epoch of stream `k` — after the reconnect that created `k` reset the nonces, and before the next
+one. (The epoch is where the producer read the nonce it echoes; reset + drain and build + enqueue exclude each other.) -/
+theorem wire_epoch {cap : Nat} {s : S α} (hR : Reach cap s) : ∀ p ∈ s.sentEp, p.2 = s.streamEp p.1 :=
+  fun p hp => (hR.ep.sent p hp).1
+
+/-- what waits in the channel was built in the current epoch: a reconnect leaves nothing of the previous stream behind -/
+theorem queue_epoch {cap : Nat} {s : S α} (hR : Reach cap s) : ∀ e ∈ s.queueEp, e = s.epoch := hR.ep.tags
 
 end XdsVerif.Flow
